@@ -1018,13 +1018,8 @@ fn check_mutant_in(base: &Path, m: &Mutant, obs: &mut Obs) -> CaseResult {
             let stext = m.format.render(&sdoc, m.case.style);
             let sraw = parse_raw(m.format, &stext).map_err(|e| Failure { sig: "C14:harness".into(), msg: e })?;
             let _ = raw;
-            match catch(|| {
-                let (apps, errs) = sraw.appenders_lossy(&Deserializers::default());
-                if !errs.is_empty() {
-                    return Err(format!("{}", errs));
-                }
-                Config::builder().appenders(apps).loggers(sraw.loggers()).build(sraw.root()).map(|_| ()).map_err(|e| format!("{}", e))
-            }) {
+            // the library's own strict entry point (what init_raw_config runs before installing the logger)
+            match catch(|| log4rs::config::create_raw_config(sraw).map(|_| ()).map_err(|e| format!("{}", e))) {
                 Err(p) => return fail(panic_sig("load", &p), format!("{}: the strict path panicked while loading: {}\n{}", what, p, text)),
                 Ok(r) => Some(r),
             }
